@@ -180,3 +180,13 @@ def model_operation_sequences(tier, seed):
 
 
 BOUNDED = [model_operation_sequences]
+
+
+# Saving through a BatchQuery persists the model state only if every statement of the batch keeps its own values when the statements are renumbered into one
+# parameter dictionary: that is C37's contract on BaseCQLStatement.update_context_id / BatchQuery.execute.  It is re-discharged here (same harnesses) so that a
+# change to the renumbering fails this property too.
+from contracts import c37_placeholders as _C37
+_S = 'cassandra.cqlengine.statements.'
+harness('C35', 'batched-statements-keep-their-own-values', functions=['cassandra.cqlengine.query.BatchQuery.execute'], native='contracts.native.c37:replay')(_C37.batch)
+harness('C35', 'renumbered-statements-keep-their-own-values', functions=[_S + 'BaseCQLStatement.update_context_id', _S + 'UpdateStatement.update_context_id', _S + 'DeleteStatement.update_context_id'],
+        native='contracts.native.c37:replay')(_C37.statements)
